@@ -1,5 +1,6 @@
 """C31 — secure lists behave like Python lists under any operation history."""
 import random
+import asyncio
 
 PROPERTY = 'C31'
 ENGINE = 'SIM'
@@ -16,7 +17,7 @@ TIMEOUT = {'quick': 900, 'thorough': 10000}
 from vlib.runner import config_name
 
 OPS = ['get_int', 'get_sec', 'get_uv', 'get_si', 'set_int', 'set_sec', 'del_int', 'del_sec', 'del_slice', 'ins_int', 'ins_sec', 'pop_int', 'pop_sec', 'pop', 'append', 'extend',
-       'add', 'mul', 'iadd', 'copy', 'remove', 'count', 'contains', 'find', 'index', 'sort', 'cmp', 'slice_get', 'set_si', 'set_slice', 'prod2', 'prod2']
+       'add', 'mul', 'iadd', 'copy', 'remove', 'count', 'contains', 'find', 'index', 'sort', 'cmp', 'slice_get', 'set_si', 'set_slice', 'prod2', 'prod2', 'ins_uv', 'del_uv', 'pop_uv', 'remove_conc']
 
 
 def shards(tier, seed):
@@ -90,6 +91,24 @@ def gen_history(rng, tp, length):
             i, v = rng.randint(0, n), val()
             hist.append([op, i, v])
             p.insert(i, v)
+        elif op == 'ins_uv':
+            if n >= 8:
+                continue
+            i, v = rng.randint(0, n), val()
+            hist.append([op, i, v])
+            p.insert(i, v)
+        elif op in ('del_uv', 'pop_uv'):
+            if n == 0:
+                continue
+            i = rng.randrange(n)
+            hist.append([op, i])
+            p.pop(i)
+        elif op == 'remove_conc':
+            if not p:
+                continue
+            v = rng.choice(p)
+            hist.append([op, v, rng.randint(1, 4), rng.randrange(3)])
+            p.remove(v)
         elif op == 'prod2':
             if n == 0:
                 continue
@@ -197,6 +216,41 @@ def make_program(tp, hist, log):
                     exp_res, got_res = p.pop(h[1]), await opened(s.pop(h[1]))
                 elif op == 'pop_sec':
                     exp_res, got_res = p.pop(h[1]), await opened(s.pop(mk(h[1])))
+                elif op in ('ins_uv', 'del_uv', 'pop_uv'):
+                    # secret index given as a list of secure numbers (unit vector): the operation must leave the caller's index object as it was,
+                    # so that it can be used again (here: read back through the same index object after an insert)
+                    k = h[1]
+                    ln = n + 1 if op == 'ins_uv' else n
+                    idx = [mk(int(j == k)) for j in range(ln)]
+                    if op == 'ins_uv':
+                        p.insert(k, h[2])
+                        s.insert(idx, mk(h[2]))
+                        again = await opened(s[idx]) if len(idx) == len(s) else 'index object changed length'
+                        exp_res = ('index intact', [int(j == k) for j in range(ln)], h[2])
+                    elif op == 'del_uv':
+                        p.pop(k)
+                        del s[idx]
+                        again = None
+                        exp_res = ('index intact', [int(j == k) for j in range(ln)], None)
+                    else:
+                        ev = p.pop(k)
+                        again = await opened(s.pop(idx))
+                        exp_res = ('index intact', [int(j == k) for j in range(ln)], ev)
+                    got_idx = [int(x) for x in await opened(list(idx))] if idx else []
+                    got_res = ('index intact', got_idx, again)
+                elif op == 'remove_conc':
+                    # remove() running concurrently with unrelated secure work, parties yielding asymmetrically before awaiting it
+                    p.remove(h[1])
+                    r = s.remove(mk(h[1]))
+                    w_ = mk(2) * mk(3) + mk(1)
+                    if pid == h[3] % len(mpc.parties):
+                        for _ in range(h[2]):
+                            await asyncio.sleep(0)
+                    w2 = mk(3) * mk(3)
+                    await r
+                    exp_res, got_res = [7, 9], [await opened(w_), await opened(w2)]
+                    if tp == 'fxp':
+                        got_res = [round(x) for x in got_res]
                 elif op == 'prod2':
                     # elements taken out of the list are ordinary secure numbers: their product must be right (no stale integrality marks)
                     exp_res = p[h[1]] * p[h[2]] if tp != 'fld' else (p[h[1]] * p[h[2]]) % 101
@@ -282,7 +336,7 @@ def make_program(tp, hist, log):
     return program
 
 
-SECRET_OPS = ('get_sec', 'get_uv', 'get_si', 'set_sec', 'set_si', 'del_sec', 'ins_sec', 'pop_sec', 'remove', 'count', 'contains', 'find', 'index', 'sort', 'cmp')
+SECRET_OPS = ('ins_uv', 'del_uv', 'pop_uv', 'remove_conc', 'get_sec', 'get_uv', 'get_si', 'set_sec', 'set_si', 'del_sec', 'ins_sec', 'pop_sec', 'remove', 'count', 'contains', 'find', 'index', 'sort', 'cmp')
 
 
 def run(shard, rec):
